@@ -54,7 +54,7 @@ type connopsSet struct {
 
 func connopsRegister(s connopsSet) {
 	mk := func(tier string) []vsched.Variant {
-		cfgs, bound, shards, budget := s.quick, s.qBound, 1, 75
+		cfgs, bound, shards, budget := s.quick, s.qBound, 1, 200
 		if tier == "thorough" {
 			cfgs, bound, shards, budget = append(append([]connopsCfg{}, s.quick...), s.thor...), s.tBound, 4, 150
 		}
